@@ -2,6 +2,7 @@
 
 Online shadow-model monitor on direct-drive histories over the real Order / SpotExchange / Position objects.
 """
+import math
 import random
 from decimal import Decimal
 from fractions import Fraction as F
@@ -88,6 +89,12 @@ def _history(job):
         else:
             exact = F(float(exch.assets['USDT'])) == mdl.quote and F(abs(qty) * price) == F(models.D(qty)) * F(price)
         band = (not exact) and abs(slack) <= 1e-9 * scale
+        # balances and committed sums are doubles (decimal arithmetic re-rounded to a double after every operation): an excess
+        # or a shortfall below the resolution of the compared balance cannot be represented, let alone decided
+        res = 4 * math.ulp(max(float(mdl.base[sym]) if side == 'sell' else float(mdl.quote), 1e-300))
+        if 0 < abs(slack) <= res:
+            band = True
+            c('boundary_below_float_resolution')
         if exact and slack == 0:
             c('exact_boundary_cases')
         if side == 'sell' and cancelled_sell[sym]:
